@@ -205,7 +205,7 @@ def view_world(world, limit=60):
             if "zip" in n:
                 s += " [zip %d members]" % len(n["zip"].get("members", []))
             else:
-                s += " (%d bytes)" % len(n.get("content", "")) if "content" in n else ""
+                s += (" (%d bytes)" % len(n["content"])) if "content" in n else (" (pattern %r x %d bytes)" % (n["pat"]["unit"][:12], n["pat"]["size"])) if "pat" in n else ""
         out.append(s)
     if len(world["nodes"]) > limit:
         out.append("... %d more" % (len(world["nodes"]) - limit))
